@@ -366,6 +366,10 @@ class Env:
 
     def __enter__(self):
         install()
+        for name in ("logger_locks", "handler_locks", "queue_locks"):
+            ws = getattr(_lm, name, None)
+            if ws is not None:
+                ws.clear()          # locks of earlier runs must not be swept up by acquire_locks()
         self.saved_handler = _lg.Handler
         _lg.Handler = THandler
         del HANDLERS[:]
